@@ -213,6 +213,18 @@ class Metadata(Family):
                 ctx.claim("bundled-dataset-well-formed", ok, {"name": nm})
                 x, y = load_dataset(nm, unpack_dataset_columns=True)
                 ctx.claim("bundled-dataset-unpacks-to-columns", bool(np.array_equal(x, a[:, 0]) and np.array_equal(y, a[:, 1])), {"name": nm})
+                # "every" request: whatever the caller did to an earlier result (in-place edits included), the next
+                # request for the same name returns the shipped values again
+                pristine = a.copy()
+                for arr_ in (a, x, y):
+                    if isinstance(arr_, np.ndarray) and arr_.flags.writeable:
+                        arr_[...] = -arr_[::-1] - 1.0
+                b = load_dataset(nm)
+                ctx.claim("bundled-dataset-well-formed-on-every-request",
+                          isinstance(b, np.ndarray) and b.shape == pristine.shape and bool(np.array_equal(b, pristine)), {"name": nm})
+                x2, y2 = load_dataset(nm, unpack_dataset_columns=True)
+                ctx.claim("bundled-dataset-well-formed-on-every-request",
+                          bool(np.array_equal(x2, pristine[:, 0]) and np.array_equal(y2, pristine[:, 1])), {"name": nm, "unpack": True})
 
 
 META = {
